@@ -38,6 +38,7 @@ fn main() {
         Some("replay") => cmd_replay(&args),
         Some("minimize") => cmd_minimize(&args),
         Some("gen") => cmd_gen(&args),
+        Some("sweep") => cmd_sweep(&args),
         _ => {
             eprintln!("usage: tvsim run|one|replay ...");
             std::process::exit(2);
@@ -355,4 +356,52 @@ fn cmd_gen(args: &[String]) {
     let j = serde_json::json!({"property": vprop, "check": prop, "run_seed": rs, "case": case,
         "ops_readable": case.ops.iter().map(exec::short_op).collect::<Vec<_>>()});
     std::fs::write(out, serde_json::to_string_pretty(&j).unwrap()).expect("write");
+}
+
+/// sweep <case.json> --n N [--seed S] [--shard i/n] [--replay-out FILE]: run one case under N seeded
+/// schedules (strategies drawn as in the profiles). On the first violating schedule a complete replay file
+/// (case + recorded schedule) is written and `VIOLATION property=.. replay=..` printed; exit 1.
+fn cmd_sweep(args: &[String]) {
+    set_known(args);
+    let path = args.get(2).expect("sweep <file>");
+    let v: serde_json::Value = serde_json::from_str(&std::fs::read_to_string(path).expect("read")).expect("json");
+    let prop = leak(v["check"].as_str().or(v["property"].as_str()).expect("property"));
+    let case: workload::Case = serde_json::from_value(v["case"].clone()).expect("case");
+    let n: u64 = arg(args, "--n").and_then(|s| s.parse().ok()).unwrap_or(100);
+    let seed: u64 = arg(args, "--seed").and_then(|s| s.parse().ok()).unwrap_or(1);
+    let shard = arg(args, "--shard").unwrap_or("0/1".into());
+    let (si, sn) = shard.split_once('/').unwrap();
+    let (si, sn): (u64, u64) = (si.parse().unwrap(), sn.parse().unwrap());
+    let replay_out = arg(args, "--replay-out").unwrap_or(format!("{path}.violation.json"));
+    let classes = ["producer0", "producer1", "producer2", "reader", "merge_thread", "segment_updater", "thrd-tantivy-index", "watch"];
+    let mut executed = 0u64;
+    let mut k = si;
+    while k < n {
+        let mut rng = rng::Rng::new(rng::derive(seed, &[k]));
+        let mut c = case.clone();
+        c.cfg.strategy = sched::draw_strategy(&mut rng, &classes);
+        c.cfg.sched_seed = rng.next_u64();
+        let out = runner::run_case(prop, &c);
+        executed += 1;
+        if let Some(h) = &out.harness_error {
+            if !h.starts_with("budget") {
+                println!("HARNESS: schedule {k}: {h}");
+                std::process::exit(2);
+            }
+        }
+        if let Some(x) = out.violations.first() {
+            let j = serde_json::json!({
+                "property": x.prop, "check": prop, "oracle": x.oracle, "detail": x.detail,
+                "scenario": path, "schedule_index": k, "sweep_seed": seed,
+                "case": c, "choices": out.choices, "log_hash": out.log_hash,
+                "ops_readable": c.ops.iter().map(exec::short_op).collect::<Vec<_>>(),
+            });
+            std::fs::write(&replay_out, serde_json::to_string_pretty(&j).unwrap()).expect("write replay");
+            println!("sweep: schedule {k} of scenario {path} violates: oracle={} {}", x.oracle, x.detail);
+            println!("VIOLATION property={} replay={}", x.prop, replay_out);
+            std::process::exit(1);
+        }
+        k += sn;
+    }
+    println!("sweep: {executed} schedules, no violation");
 }
